@@ -18,10 +18,10 @@ def run(tier, seed):
 
     forms = K.corpus(set(by_name))
     # forms harvested from the decode side: every distinct accepted rendering
-    hseed = seed
-    dcases = K.dis_cases(cpus, "quick", hseed)
+    # the harvest does not depend on the seed: every 16th leading pattern of the thorough enumeration
+    dcases = K.dis_cases(cpus, "thorough", 0, every=16)
     if tier == "quick":
-        dcases = dcases[::6]
+        dcases = [c for i, c in enumerate(dcases) if (i + seed) % 8 == 0]
     dobs = C.conform_parallel(vdir, "codec", dcases, chk.rundir, "harv", 5, nproc=C.NCPU)
     harvested = set()
     for o in dobs:
